@@ -74,6 +74,9 @@ pub struct Sc {
     /// symbol table carries these (offset into the code, name) pairs - several names per address on purpose
     #[serde(default)]
     pub symbols: Vec<(u64, String)>,
+    /// offsets of 32-bit immediates (of `mov r32, imm32`) that a hook answering "P" rewrites
+    #[serde(default)]
+    pub patch_slots: Vec<u64>,
 }
 
 pub struct E2Engine;
@@ -133,9 +136,13 @@ impl<'a> Gen<'a> {
         let (rd32, rs32) = (POOL32[d], POOL32[s]);
         let w = if self.flavour == "c18" { 8 } else { 30 };
         match self.rng.below(w) {
-            0 | 1 => {
+            0 => {
                 let v = self.imm();
                 self.a.mov(rd, v)
+            }
+            1 => {
+                let v = (self.imm() & 0x7fff_ffff) as u32;
+                self.a.mov(rd32, v)
             }
             2 => self.a.mov(rd, rs),
             3 => self.a.add(rd, rs),
@@ -491,6 +498,8 @@ fn gen_script(rng: &mut Rng, flavour: &str, stopper: bool) -> Vec<String> {
         let w: [u32; 6] = if flavour == "c12" { [40, 14, if stopper { 6 } else { 0 }, 10, 20, 6] } else { [70, 8, if stopper { 3 } else { 0 }, 4, 10, 2] };
         let a = ["U", "H", "S", "E", "M", "R"][rng.weighted(&w)];
         let a = if a == "R" && rng.chance(1, 3) { "RS" } else { a };
+        let a = if a == "S" && rng.chance(1, 4) { *rng.pick(&["SE", "MS"]) } else { a };
+        let a = if a == "M" && rng.chance(1, 3) { "P" } else { a };
         s.push(a.to_string());
     }
     s
@@ -778,6 +787,19 @@ pub fn generate(prop: &str, thorough: bool, seed: u64, idx: u64) -> Sc {
             }
         }
     }
+    // immediates that hooks may rewrite while the program runs (self-modifying code through the host)
+    let mut patch_slots: Vec<u64> = Vec::new();
+    {
+        let mut dec = Decoder::with_ip(64, &code, code_start, DecoderOptions::NONE);
+        let mut ins = Instruction::default();
+        while dec.can_decode() {
+            let pos = dec.position();
+            dec.decode_out(&mut ins);
+            if ins.code() == iced_x86::Code::Mov_r32_imm32 && ins.len() >= 5 && patch_slots.len() < 6 {
+                patch_slots.push((pos + ins.len() - 4) as u64);
+            }
+        }
+    }
     let mut data = Vec::new();
     if data_len > 0 {
         data.push(DataArea { start: DATA_BASE, len: data_len, prot: 3 });
@@ -806,6 +828,7 @@ pub fn generate(prop: &str, thorough: bool, seed: u64, idx: u64) -> Sc {
         builtin_exit,
         ending: ending.to_string(),
         symbols,
+        patch_slots,
     }
 }
 
